@@ -504,11 +504,50 @@ def _normalises(repo: Repo, fn: ast.FunctionDef) -> Tuple[bool, List[str]]:
             src = norm(st.value.func.value)
             if src in (p1, p2):
                 fresh[st.targets[0].id] = src
+    # X = helper(param): a module-level helper that copies its argument, expands the wrappers, then drops the identities, and returns the copy
+    mod = repo.module(CMP)
+    via_helper: Dict[str, str] = {}
+    for st in fn.body:
+        if isinstance(st, ast.Assign) and isinstance(st.value, ast.Call) and isinstance(st.value.func, ast.Name) and isinstance(st.targets[0], ast.Name) \
+                and len(st.value.args) == 1 and norm(st.value.args[0]) in (p1, p2):
+            hf = mod.find(st.value.func.id)
+            if isinstance(hf, ast.FunctionDef) and len(func_params(hf)) == 1:
+                q = func_params(hf)[0]
+                cp = [a for a in hf.body if isinstance(a, ast.Assign) and isinstance(a.value, ast.Call) and call_attr(a.value) == "copy"
+                      and isinstance(a.value.func, ast.Attribute) and norm(a.value.func.value) == q and isinstance(a.targets[0], ast.Name)]
+                if not cp:
+                    continue
+                cn = cp[0].targets[0].id
+                pos = {}
+                for k_, hs in enumerate(hf.body):
+                    for c in ast.walk(hs):
+                        if isinstance(c, ast.Call) and call_attr(c) in NORMALISERS and isinstance(c.func, ast.Attribute) and norm(c.func.value) == cn and not isinstance(hs, (ast.If, ast.For, ast.While)):
+                            pos.setdefault(call_attr(c), k_)
+                rets = [r for r in ast.walk(hf) if isinstance(r, ast.Return)]
+                src = norm(st.value.args[0])
+                if not (len(rets) == 1 and rets[0].value is not None and norm(rets[0].value) == cn):
+                    continue
+                via_helper[st.targets[0].id] = src
+                if set(pos) != set(NORMALISERS):
+                    problems.append(f"helper {hf.name}() does not apply {[n_ for n_ in NORMALISERS if n_ not in pos]} to its copy")
+                elif pos["unwrap_nodes"] > pos["remove_identity"]:
+                    problems.append(f"helper {hf.name}() removes the identities before it expands the wrappers: an Identity inside a OneQubitGateWrapper only becomes a "
+                                    f"node when the wrapper is unwrapped, so it survives the normalisation and `W[H, I, S]` compares different from `H, S`")
     for p in (p1, p2):
+        if any(v == p for v in via_helper.values()):
+            continue
         names = [k for k, v in fresh.items() if v == p]
         if not names:
             problems.append(f"`{p}` is never copied")
             continue
+        # inline form: the wrappers are expanded before the identities are dropped
+        order_ = {}
+        for k_, st in enumerate(fn.body):
+            for c in ast.walk(st):
+                if isinstance(c, ast.Call) and call_attr(c) in NORMALISERS and isinstance(c.func, ast.Attribute) and norm(c.func.value) in names:
+                    order_.setdefault(call_attr(c), k_)
+        if set(order_) == set(NORMALISERS) and order_["unwrap_nodes"] > order_["remove_identity"]:
+            problems.append(f"the copy of `{p}` has its identities removed before its wrappers are expanded (an Identity inside a wrapper survives)")
         for nm in NORMALISERS:
             ok = flow.must_pass(fn.body, lambda node, nm=nm, names=names: not isinstance(node, (ast.If, ast.For, ast.While)) and any(
                 isinstance(c, ast.Call) and call_attr(c) == nm and isinstance(c.func, ast.Attribute) and norm(c.func.value) in names
@@ -808,6 +847,7 @@ def _edit_direct_zip(src: str) -> str:
 
 
 KNOCKOUTS = [
+    Knockout("isomorphism-normalises-identities-before-unwrapping", CMP, sub_nth("    circuit1.unwrap_nodes()\n    circuit1.remove_identity()\n", "    circuit1.remove_identity()\n    circuit1.unwrap_nodes()\n", 0), "cmp.normalise", "before its wrappers are expanded"),
     Knockout("remove-identity-strips-theta-zero-rotations", "graphiq/circuit/circuit_dag.py", sub_once('                if isinstance(self.dag.nodes[node]["op"].noise, NoNoise):\n                    self.remove_op(node)\n', '                if isinstance(self.dag.nodes[node]["op"].noise, NoNoise):\n                    self.remove_op(node)\n        for node in self.get_node_by_labels(["one-qubit"]):\n            op = self.dag.nodes[node]["op"]\n            if isinstance(op, ops.ParameterizedOneQubitRotation) and op.params[0] == 0 and isinstance(op.noise, NoNoise):\n                self.remove_op(node)\n'), "identity.scope", "phase gate"),
     Knockout("registers-compared-sorted-for-every-gate", CMP, sub_once("                    op1.q_registers_type == op2.q_registers_type\n                    and op1.q_registers == op2.q_registers\n", "                    sorted(zip(op1.q_registers_type, op1.q_registers)) == sorted(zip(op2.q_registers_type, op2.q_registers))\n"), "cmp.fields", "without order"),
     Knockout("redundant-filter-keeps-only-duplicates", CMP, sub_once("            if not check_isomorphic:\n                new_circuit_list.append(new_circuit)", "            if check_isomorphic:\n                new_circuit_list.append(new_circuit)"), "dedup.model", "drops circuit"),
